@@ -861,7 +861,12 @@ impl RefTable {
             SdtOp::AppendU16(v) | SdtOp::SinkWord(v) => app(self, &v.to_le_bytes()),
             SdtOp::AppendU32(v) | SdtOp::SinkDword(v) => app(self, &v.to_le_bytes()),
             SdtOp::AppendU64(v) | SdtOp::SinkQword(v) => app(self, &v.to_le_bytes()),
-            SdtOp::AppendSlice(v) | SdtOp::SinkVec(v) => app(self, v),
+            SdtOp::AppendSlice(v) => app(self, v),
+            SdtOp::SinkVec(v) => {
+                if !v.is_empty() {
+                    app(self, v)
+                }
+            }
             SdtOp::AppendArr3(v) => app(self, v),
             SdtOp::WriteU8(o, v) => wr(self, *o, &[*v]),
             SdtOp::WriteU16(o, v) => wr(self, *o, &v.to_le_bytes()),
